@@ -1,0 +1,16 @@
+//go:build verif
+
+package cert
+
+import "crypto/tls"
+
+// VerifOnSetCerts, when set, is called by Store.SetCertificates right after
+// the new certificate set has been stored. It exists only in builds with the
+// "verif" tag and is used by the external verification harness.
+var VerifOnSetCerts func(*Store, []tls.Certificate)
+
+func verifOnSetCerts(s *Store, certs []tls.Certificate) {
+	if f := VerifOnSetCerts; f != nil {
+		f(s, certs)
+	}
+}
